@@ -445,7 +445,10 @@ class WSGITask(Task):
             if isinstance(app_iter, ReadOnlyFileBasedBuffer):
                 cl = self.content_length
                 size = app_iter.prepare(cl)
-                if size:
+                # a 1xx, 204 or 304 response has no body: the file must not be
+                # handed to the channel (which would send its bytes after the
+                # header block), the loop below consumes and drops it instead
+                if size and self.has_body:
                     if cl != size:
                         if cl is not None:
                             self.remove_content_length_header()
